@@ -7,6 +7,7 @@ import (
 	"go/token"
 	"go/types"
 	"regexp"
+	"strings"
 
 	"goblcheck/core"
 )
@@ -280,6 +281,68 @@ func C06(c *core.Ctx) {
 			}
 		}
 		c.Ob("C06-R3", "num.("+recv+").MarshalText", token.NoPos, okM, "MarshalText does not write String()")
+		// UnmarshalText: a success return lies after a successful read of the whole text by the
+		// type's reader, or where the text was found to be exactly "null"
+		if tfd := p.Func("num", recv, "UnmarshalText"); tfd != nil {
+			tinfo := tfd.Pkg.TypesInfo
+			tff := core.NewFuncFlow(tfd)
+			val := tfd.Obj.Type().(*types.Signature).Params().At(0)
+			tld := core.NewLocalDefs(tinfo, tfd.Decl.Body)
+			isText := func(e ast.Expr) bool {
+				e = ast.Unparen(e)
+				if lv := core.VarOf(tinfo, e); lv != nil && lv != val {
+					if ds := tld.All(lv); len(ds) == 1 && ds[0].RHS != nil && ds[0].N == 1 {
+						e = ast.Unparen(ds[0].RHS) // text := string(value)
+					}
+				}
+				if cl, ok := e.(*ast.CallExpr); ok && len(cl.Args) == 1 {
+					if tv, ok := tinfo.Types[cl.Fun]; ok && tv.IsType() {
+						e = ast.Unparen(cl.Args[0])
+					}
+				}
+				return core.VarOf(tinfo, e) == val
+			}
+			reads := core.CallsTo(tinfo, tfd.Decl.Body, func(f *types.Func) bool {
+				return f.Pkg() != nil && f.Pkg().Path() == core.ModPath+"/num" && strings.HasSuffix(f.Name(), "FromString")
+			})
+			bad := ""
+			nSucc := 0
+			for _, r := range tff.Flow.Returns() {
+				if !tff.Flow.Reachable(r) {
+					continue
+				}
+				if k, _ := tff.ClassifyReturn(p, r); k != core.RetSuccess {
+					continue
+				}
+				nSucc++
+				ok := false
+				for _, rd := range reads {
+					if len(rd.Args) == 1 && isText(rd.Args[0]) && tff.Flow.PassedAt(r)[rd] && tff.ErrNilAt(r, rd) == 1 {
+						ok = true
+					}
+				}
+				for leaf, v := range tff.Flow.CondsAt(r) {
+					be, isB := ast.Unparen(leaf).(*ast.BinaryExpr)
+					if !isB || !((be.Op == token.EQL && v) || (be.Op == token.NEQ && !v)) {
+						continue
+					}
+					x, y := be.X, be.Y
+					if s, isC := foldString(tinfo, x); isC && s == "null" {
+						x, y = y, x
+					}
+					if s, isC := foldString(tinfo, y); isC && s == "null" && isText(x) {
+						ok = true
+					}
+				}
+				if !ok {
+					bad = p.Rel(r.Pos())
+				}
+			}
+			c.Ob("C06-R3", tfd.Name()+"#success-only-after-read", tfd.Decl.Pos(), bad == "" && nSucc > 0,
+				"UnmarshalText reports success at "+bad+" without the text having been read by the type's reader or found to be exactly \"null\": text that is not a number is accepted silently")
+		} else {
+			c.Ob("C06-R3", "UNRESOLVED:"+recv+".UnmarshalText", token.NoPos, false, "method not found")
+		}
 	}
 	if qfd := p.Func("num", "", "unquote"); qfd != nil {
 		qinfo := qfd.Pkg.TypesInfo
@@ -289,95 +352,138 @@ func C06(c *core.Ctx) {
 		// unchanged otherwise, and no index is evaluated outside the input
 		okQ := true
 		rows := 0
-		for L := int64(0); L <= 4 && okQ; L++ {
-			for q := 0; q < 4 && okQ; q++ {
-				q0, q1 := q&1 != 0, q&2 != 0
-				if L == 1 && q0 != q1 {
-					continue // one byte is both first and last
-				}
-				if L == 0 && q != 0 {
-					continue
-				}
+		// the decoding form: json.Unmarshal(value, &s) is tried; the result is the decoded text
+		// exactly when that succeeded with a non-empty string, the input unchanged otherwise
+		decodes := core.CallsTo(qinfo, qfd.Decl.Body, func(f *types.Func) bool { return core.IsFunc(f, "encoding/json", "", "Unmarshal") })
+		if len(decodes) == 1 && len(decodes[0].Args) == 2 && core.VarOf(qinfo, decodes[0].Args[0]) == v {
+			var sv *types.Var
+			if u, ok := ast.Unparen(decodes[0].Args[1]).(*ast.UnaryExpr); ok && u.Op == token.AND {
+				sv = core.VarOf(qinfo, u.X)
+			}
+			for _, tc := range []struct {
+				err  bool
+				text string
+				want string
+			}{{true, "", "orig"}, {false, "", "orig"}, {false, "content", "content"}} {
+				tc := tc
 				ev := &core.AbsEval{Info: qinfo}
 				ev.Set(v, "orig")
-				oob := false
 				ev.Atom = func(e ast.Expr) (any, bool) {
 					e = ast.Unparen(e)
-					switch x := e.(type) {
-					case *ast.CallExpr:
-						if id, ok := x.Fun.(*ast.Ident); ok && id.Name == "len" && len(x.Args) == 1 && core.VarOf(qinfo, x.Args[0]) == v {
-							return L, true
+					if core.IsNil(qinfo, e) {
+						return "nil", true
+					}
+					if call, ok := e.(*ast.CallExpr); ok && call == decodes[0] {
+						if tc.err {
+							return "error", true
 						}
-					case *ast.IndexExpr:
-						if core.VarOf(qinfo, x.X) != v {
-							return nil, false
-						}
-						iv, ok := ev.Eval(x.Index)
-						idx, isN := iv.(int64)
-						if !ok || !isN {
-							return nil, false
-						}
-						if idx < 0 || idx >= L {
-							oob = true
-							return nil, false
-						}
-						quote := (idx == 0 && q0) || (idx == L-1 && q1)
-						if idx != 0 && idx != L-1 {
-							return int64('x'), true
-						}
-						if quote {
-							return int64('"'), true
-						}
-						return int64('x'), true
-					case *ast.SliceExpr:
-						if core.VarOf(qinfo, x.X) != v {
-							return nil, false
-						}
-						lo, hi := int64(0), L
-						if x.Low != nil {
-							lv, ok := ev.Eval(x.Low)
-							n, isN := lv.(int64)
-							if !ok || !isN {
-								return nil, false
-							}
-							lo = n
-						}
-						if x.High != nil {
-							hv, ok := ev.Eval(x.High)
-							n, isN := hv.(int64)
-							if !ok || !isN {
-								return nil, false
-							}
-							hi = n
-						}
-						if lo < 0 || hi > L || lo > hi {
-							oob = true
-							return nil, false
-						}
-						if lo == 1 && hi == L-1 {
-							return "inner", true
-						}
-						if lo == 0 && hi == L {
-							return "orig", true
-						}
-						return "other", true
+						return "nil", true
+					}
+					if sv != nil && core.VarOf(qinfo, e) == sv {
+						return tc.text, true
 					}
 					return nil, false
 				}
 				ret, ok := ev.Run(qfd.Decl.Body)
 				rows++
-				want := "orig"
-				if L >= 3 && q0 && q1 {
-					want = "inner"
-				}
-				if !ok || oob || len(ret) != 1 || ret[0] != any(want) {
+				if !ok || sv == nil || len(ret) != 1 || ret[0] != any(tc.want) {
 					okQ = false
 				}
 			}
+			c.Extra("unquote_rows", rows)
+			c.Ob("C06-R3", qfd.Name(), qfd.Decl.Pos(), okQ,
+				"unquote does not hand back the decoded text exactly when the value is a JSON string with content, and the input unchanged otherwise: the JSON token \"\" would become an empty string, which the percentage reader accepts as 0%")
+		} else {
+			for L := int64(0); L <= 4 && okQ; L++ {
+				for q := 0; q < 4 && okQ; q++ {
+					q0, q1 := q&1 != 0, q&2 != 0
+					if L == 1 && q0 != q1 {
+						continue // one byte is both first and last
+					}
+					if L == 0 && q != 0 {
+						continue
+					}
+					ev := &core.AbsEval{Info: qinfo}
+					ev.Set(v, "orig")
+					oob := false
+					ev.Atom = func(e ast.Expr) (any, bool) {
+						e = ast.Unparen(e)
+						switch x := e.(type) {
+						case *ast.CallExpr:
+							if id, ok := x.Fun.(*ast.Ident); ok && id.Name == "len" && len(x.Args) == 1 && core.VarOf(qinfo, x.Args[0]) == v {
+								return L, true
+							}
+						case *ast.IndexExpr:
+							if core.VarOf(qinfo, x.X) != v {
+								return nil, false
+							}
+							iv, ok := ev.Eval(x.Index)
+							idx, isN := iv.(int64)
+							if !ok || !isN {
+								return nil, false
+							}
+							if idx < 0 || idx >= L {
+								oob = true
+								return nil, false
+							}
+							quote := (idx == 0 && q0) || (idx == L-1 && q1)
+							if idx != 0 && idx != L-1 {
+								return int64('x'), true
+							}
+							if quote {
+								return int64('"'), true
+							}
+							return int64('x'), true
+						case *ast.SliceExpr:
+							if core.VarOf(qinfo, x.X) != v {
+								return nil, false
+							}
+							lo, hi := int64(0), L
+							if x.Low != nil {
+								lv, ok := ev.Eval(x.Low)
+								n, isN := lv.(int64)
+								if !ok || !isN {
+									return nil, false
+								}
+								lo = n
+							}
+							if x.High != nil {
+								hv, ok := ev.Eval(x.High)
+								n, isN := hv.(int64)
+								if !ok || !isN {
+									return nil, false
+								}
+								hi = n
+							}
+							if lo < 0 || hi > L || lo > hi {
+								oob = true
+								return nil, false
+							}
+							if lo == 1 && hi == L-1 {
+								return "inner", true
+							}
+							if lo == 0 && hi == L {
+								return "orig", true
+							}
+							return "other", true
+						}
+						return nil, false
+					}
+					ret, ok := ev.Run(qfd.Decl.Body)
+					rows++
+					want := "orig"
+					if L >= 3 && q0 && q1 {
+						want = "inner"
+					}
+					if !ok || oob || len(ret) != 1 || ret[0] != any(want) {
+						okQ = false
+					}
+				}
+			}
+			c.Extra("unquote_rows", rows)
+			c.Ob("C06-R3", qfd.Name(), qfd.Decl.Pos(), okQ,
+				"unquote does not require both quotes around a non-empty body (length ≥ 3): the JSON token \"\" would be unquoted to an empty string, which the percentage reader accepts as 0%")
 		}
-		c.Extra("unquote_rows", rows)
-		c.Ob("C06-R3", qfd.Name(), qfd.Decl.Pos(), okQ,
-			"unquote does not require both quotes around a non-empty body (length ≥ 3): the JSON token \"\" would be unquoted to an empty string, which the percentage reader accepts as 0%")
 	} else {
 		c.Ob("C06-R3", "UNRESOLVED:num.unquote", token.NoPos, false, "function not found")
 	}
